@@ -131,7 +131,8 @@ def generate(run_seed, tier):
         elif r < 0.60:
             ops.append(['probe', o.choice(mols), o.random(), o.random()])
         elif r < 0.64:
-            ops.append(['add_mem', o.choice(allm)])
+            ops.append(['add_mem', o.choice(allm),
+                        o.choice([None, 'linear', 'exp'])])
         elif r < 0.70:
             ops.append(['replace_file', o.randrange(ndirs), o.choice(mols)])
         elif r < 0.74:
@@ -502,8 +503,9 @@ def execute(case, keep_text=False):
         s = ref['served'][mol]
         T, P = interior_point(s['tab'], u, v)
         got = np.asarray(obj.opacity(T, P), dtype=float)
-        want = ref_interp(s['tab'], ref['interp'], T, P)
-        other = ref_interp(s['tab'], 'exp' if ref['interp'] == 'linear'
+        mode = s.get('mode', ref['interp'])
+        want = ref_interp(s['tab'], mode, T, P)
+        other = ref_interp(s['tab'], 'exp' if mode == 'linear'
                            else 'linear', T, P)
         if np.any(np.abs(want - other) > 1e-6 * np.abs(want)):
             out.bump('probes', 'mode_discriminating_probe')
@@ -514,7 +516,7 @@ def execute(case, keep_text=False):
                  'other-mode' if match_other else 'value',
                  '%s (%s) at T=%r P=%r: served opacity does not follow the '
                  'configured interpolation mode %r%s'
-                 % (mol, s['fmt'], T, P, ref['interp'],
+                 % (mol, s['fmt'], T, P, mode,
                     ' (matches the other mode)' if match_other else ''), step)
             raise Stop()
         out.bump('steps', 'probes')
@@ -556,14 +558,21 @@ def execute(case, keep_text=False):
                     mol = op[1]
                     ref['memcount'] += 1
                     tab = xtab(mol, 1000 + ref['memcount'])
+                    # an object handed over by the user keeps the mode it
+                    # was built with (until the next mode change clears the
+                    # cache); it need not be the configured one
+                    omode = ref['interp']
+                    if len(op) > 2 and op[2]:
+                        omode = op[2]
+                        if omode != ref['interp']:
+                            out.bump('probes', 'added_object_other_mode')
                     obj = R.MemOpacity(mol, tab['wn'], tab['T'], tab['P'],
-                                       tab['x'],
-                                       interpolation_mode=ref['interp'])
+                                       tab['x'], interpolation_mode=omode)
                     OpacityCache().add_opacity(obj)
                     if mol not in ref['served']:
                         ref['served'][mol] = {'obj': obj, 'tab': tab,
                                               'fmt': 'mem', 'gen': -1,
-                                              'dir': None}
+                                              'dir': None, 'mode': omode}
                     else:
                         out.bump('probes', 'add_over_served')
                 elif k == 'load_list':
